@@ -21,6 +21,7 @@ class TasksRun:
     def __init__(self, case: dict[str, Any]) -> None:
         self.case = case
         self.trace: list[dict[str, Any]] = []
+        self.start_scopes: dict[int, Any] = {}
 
     def log(self, *label: Any) -> None:
         self.trace.append({"l": list(label), "t": round(anyio.current_time() / TICK, 6)})
@@ -77,6 +78,10 @@ class TasksRun:
                 current_context().parent.add_teardown_callback(run.make_cb({"id": spec["pre_reg"], "raises": None}))
                 await anyio.lowlevel.checkpoint()
                 task_status.started(("started", tid))
+                if spec.get("cancel_at_start"):
+                    # the scope around the start_service_task() call is cancelled in the very moment the task reports
+                    # that it has started: the call still completes (it has no checkpoint left), finalizer and all
+                    run.start_scopes[tid].cancel()
             run.log("taskSaw", tid, saw())
             cancelled = anyio.get_cancelled_exc_class()
             beh = spec["beh"]
@@ -217,8 +222,10 @@ class TasksRun:
                         await owner.start_service_task(self.make_body(step, stop), f"task{step['tid']}",
                                                        teardown_action=self.make_action(step, stop))
                 else:
-                    sv = await owner.start_service_task(self.make_body(step, stop), f"task{step['tid']}",
-                                                        teardown_action=self.make_action(step, stop))
+                    sv = "cancelled"
+                    with anyio.CancelScope() as self.start_scopes[step["tid"]]:
+                        sv = await owner.start_service_task(self.make_body(step, stop), f"task{step['tid']}",
+                                                            teardown_action=self.make_action(step, stop))
                     want = ("started", step["tid"]) if step.get("pre_reg") is not None else None
                     if sv != want:
                         self.log("probeFailed", step["tid"], f"start_service_task() returned {sv!r}; the value the task "
